@@ -105,6 +105,10 @@ def PMnvol_MEEM(
         0.85 + (1.15 - 0.85) * lin_vary_alt,
         np.where(alt_rate == 0, 0.95, 0.12),
     )
+    # The linear variation is extrapolated below 3000 m; for flights that
+    # cruise low it would turn negative, i.e. a combustor inlet pressure below
+    # the ambient total pressure (and NaN further on). Never go below ambient.
+    pressure_coef = np.maximum(pressure_coef, 0.0)
 
     # convert ambient -> *total* T/P first
     Tt_amb = Tamb_cruise * (1 + (kappa - 1) / 2 * machFlight**2)
